@@ -63,6 +63,24 @@ def extra_checks(cases, impl, model, verdicts, tier, rng, cov):
             if c.meta["requests"] != [L * 4 // 3]:
                 problems.append(("witness", "generation did not make exactly one entropy request of 4L/3 bytes", {"line": c.line, "requests": c.meta["requests"]}))
     cov["request_logs_checked"] = nlog
+    # transient entropy failure during a MULTI-THREADED vanity search: the worker whose request fails reports the
+    # error and the command must fail with no phrase printed, although other workers could go on searching.
+    # Deterministic: request 1 (main thread) = 00..00, request 2 = ff..ff, request k fails, every other request
+    # gets counter-keyed pseudo-random bytes (HDW_SHIM_REPEAT); the prefix 0xfff matches neither fixed candidate
+    # (their addresses start 0x9858 / 0xfc20) and is too long to be hit in the microseconds before the error arrives.
+    nthr = 0
+    for threads in ([2, 4, 16] if tier == "quick" else [2, 3, 4, 8, 16, 64]):
+        for k in (2, 3, 5):
+            parts = ["00" * 16, "ff" * 16] + ["55" * 16] * 8
+            parts[k - 1] = "fail"
+            for rep in range(2):
+                kind, out, err, _ = core.cli_exec(["new", "--vanity-prefix", "0xfff", "-j", str(threads)], timeout=300,
+                                                  shim={"HDW_SHIM_STREAM": ",".join(parts[:k]), "HDW_SHIM_REPEAT": "1"})
+                nthr += 1
+                if kind not in ("err", "usage") or out:
+                    problems.append(("witness", "entropy failure at request %d of a vanity search with -j %d did not fail the command (%s, stdout %r)" % (k, threads, kind, out[:80]),
+                                     {"threads": threads, "fail_at": k, "stream": ",".join(parts[:k])}))
+    cov["threaded_failure_injections"] = nthr
     # un-interposed invocations: pairwise distinct, valid, parse back
     n = 200 if tier == "thorough" else 40
     outs = []
